@@ -329,6 +329,9 @@ func runSchedule(c concCase, sched []int, rep reporter, st *Stats, logf func(str
 			}
 		}
 		if logf != nil {
+			if len(out.delivered) > 0 && out.direct == nil && out.callErr == "" {
+				logf("       %s", out.render())
+			}
 			logf("       invoice: %s", cur.canon())
 		}
 		w.judge(s, ev, lastObs, out)
